@@ -225,21 +225,33 @@ def _check_adverts(cx, a, mode):
     own, adv_data, rsp_data = cx.advertising[a]
     addr = cx.addr(a, own)
 
+    state = {}  # scanner -> [next index, seen, plain, rsp, adv_ok, rsp_ok]
+
     def verdict(s, active):
-        seen = [x for x in cx.adverts[s] if _same(x.address, addr)]
-        plain = [x for x in seen if not x.is_scan_response]
-        rsp = [x for x in seen if x.is_scan_response]
-        if active:
-            # the advertising data is either reported alone or merged in front of the scan response
-            adv_ok = any(bytes(x.data_bytes) == adv_data for x in plain) or any(bytes(x.data) == adv_data + bytes(x.data_bytes) for x in rsp)
-            rsp_ok = any(bytes(x.data_bytes) == rsp_data for x in rsp)
-        else:
-            adv_ok = any(bytes(x.data_bytes) == adv_data for x in plain)
-            rsp_ok = True
-        return seen, plain, rsp, adv_ok, rsp_ok
+        """Incremental: only the reports that came in since the last call are looked at."""
+        st = state.setdefault(s, [0, [], [], [], False, not active])
+        lst = cx.adverts[s]
+        for x in lst[st[0]:]:
+            if not _same(x.address, addr):
+                continue
+            st[1].append(x)
+            if x.is_scan_response:
+                st[3].append(x)
+                if active:
+                    # the advertising data is either reported alone or merged in front of the scan response
+                    if bytes(x.data) == adv_data + bytes(x.data_bytes):
+                        st[4] = True
+                    if bytes(x.data_bytes) == rsp_data:
+                        st[5] = True
+            else:
+                st[2].append(x)
+                if bytes(x.data_bytes) == adv_data:
+                    st[4] = True
+        st[0] = len(lst)
+        return st[1], st[2], st[3], st[4], st[5]
 
     def reported():
-        return all(verdict(s, act)[3] and verdict(s, act)[4] for s, act in cx.scanning.items() if s != a)
+        return all(v[3] and v[4] for v in [verdict(s, act) for s, act in cx.scanning.items() if s != a])
 
     # many advertising intervals (30 ms) plus the worst link and HCI latency of the slowest profile
     cx.sim.loop.drive(reported, 2.0)
